@@ -497,6 +497,13 @@ def check_decode_over(ctx, rule, key, prog, s, dpath, events, expect, where, lea
                 elif exp[2] and not txt.startswith(exp[2]):
                     ctx.violation(rule, key + '|borrow:' + fname, 'field %s should borrow from the input (%s...), got %s' % (fname, exp[2], txt[:80]), where)
                     good = False
+            elif exp[0] == 'variant':
+                inner_v = got.fields[0] if val_is_some(got) else None
+                adv = prog.adts.get(inner_v.adt) if isinstance(inner_v, Adt) else None
+                nm_ = adv['variants'][inner_v.variant]['name'] if adv else None
+                if nm_ != exp[1]:
+                    ctx.violation(rule, key + '|field:' + fname, 'enum field %s decodes to %s, expected variant %s' % (fname, repr(got)[:80], exp[1]), where)
+                    good = False
             elif exp[0] == 'none':
                 if not val_is_none(got) and not (isinstance(got, Atom) and got.name.startswith(('nil', 'z'))):
                     ctx.violation(rule, key + '|field:' + fname, 'absent optional field %s decodes to %s instead of its nil value' % (fname, repr(got)[:80]), where)
@@ -573,4 +580,222 @@ def c09(ctx, schemas=None, prog=None):
                         ctx.ok('S-RT.indef', key)
     ctx.count('S-RT.derive.cases', n)
     ctx.floor('S-RT.derive', 'schemas', roots, min(60, len(schemas or d['schemas'])))
+    return n
+
+
+# ---------------------------------------------------------------------------
+# C09 error clauses: tampered streams must be rejected
+
+def first_items(events):
+    return [e for e in events if e[0] in ('ITEM', 'REP_BEGIN', 'REP_END')]
+
+
+def all_rejected(prog, s, events, from_state, leaf=LEAF):
+    """(True, classes) if no decode path succeeds on `events`"""
+    r = l2.run_decode(prog, dec_path(s), events, leaf, from_state=from_state)
+    if r is None:
+        return None, []
+    inst, outs, m = r
+    classes = []
+    ok_ = False
+    for o in outs:
+        if o.kind == 'return' and l1.result_kind(o.value) == 'Ok':
+            ok_ = True
+        elif o.kind == 'return' and isinstance(o.value, Adt) and o.value.fields:
+            classes.append(l1.error_class(prog, o.value.fields[0]))
+    return (not ok_), classes
+
+
+def c09_errors(ctx, schemas=None, prog=None):
+    d = corpus()
+    prog = prog or load.program('schemas')
+    n = 0
+    for s in (schemas or d['schemas']):
+        label = s['name']
+        r = summaries.summary(prog, enc_path(s), 'enc', LEAF)
+        if r is None or r[0] == 'abort':
+            continue
+        inst, outs, m = r
+        where = 'derive(Decode) on %s [%s]' % (label, s.get('doc') or s['kind'])
+        done = set()
+        for o in outs:
+            if o.kind != 'return' or l1.result_kind(o.value) != 'Ok':
+                continue
+            ev = first_items(o.st.events)
+            v = variant_of(s, o.st)
+            vk = v['name'] if v else '-'
+            # (1) every tag constant of the type's own framing: changed / removed
+            lead = 0
+            tagpos = []
+            if s.get('tag') is not None and not s.get('transparent'):
+                tagpos.append(0)
+            if v is not None and v.get('tag') is not None and not s.get('index_only'):
+                tagpos.append((1 if s.get('tag') is not None else 0) + 2)
+            for tp in tagpos:
+                if (label, vk, 'tag', tp) in done:
+                    continue
+                done.add((label, vk, 'tag', tp))
+                if tp >= len(ev) or ev[tp][1] != 'TAG':
+                    ctx.violation('S-ERR.tag', '%s|%s|tagpos' % (label, vk), 'expected a tag at item %d of the emission, found %s' % (tp, item_text(ev[tp][1:]) if tp < len(ev) else 'nothing'), where)
+                    continue
+                changed = ev[:tp] + [('ITEM', 'TAG', Int.const(ev[tp][2].c + 1))] + ev[tp + 1:]
+                removed = ev[:tp] + ev[tp + 1:]
+                for what, stream_ in (('wrong', changed), ('missing', removed)):
+                    n += 1
+                    rej, classes = all_rejected(prog, s, stream_, o.st)
+                    key = '%s|%s|%s-tag@%d' % (label, vk, what, tp)
+                    if rej:
+                        ctx.ok('S-ERR.tag', key)
+                    else:
+                        ctx.violation('S-ERR.tag', key, 'a %s tag is accepted (decoding succeeds)' % what, where)
+            # (2) unknown variant index at top level
+            if s['kind'] == 'enum' and (label, 'idx') not in done:
+                done.add((label, 'idx'))
+                pos = (1 if s.get('tag') is not None else 0) + (0 if s.get('index_only') else 1)
+                used = set(x['idx'] for x in s['variants'])
+                bad = max(used) + 1
+                if pos < len(ev) and ev[pos][1] == 'INT':
+                    st2 = ev[:pos] + [('ITEM', 'INT', 'u32', Int.const(bad))] + ev[pos + 1:]
+                    n += 1
+                    rej, classes = all_rejected(prog, s, st2, o.st)
+                    if rej and 'UnknownVariant' in classes:
+                        ctx.ok('S-ERR.variant', label)
+                    else:
+                        ctx.violation('S-ERR.variant', label, 'variant index %d is not declared but decoding yields %s' % (bad, 'a value' if not rej else classes), where)
+            # (3) a mandatory field removed (map encoding: drop the pair; array encoding: truncate before it)
+            fields = v['fields'] if v is not None else s['fields']
+            enc = (v.get('enc') if v else None) or s.get('enc') or 'array'
+            mand = [f for f in live_fields(fields) if not is_optional(f) and f['ty'] not in (s.get('generics') or ())]
+            if mand and not s.get('transparent') and (label, vk, 'missing') not in done:
+                done.add((label, vk, 'missing'))
+                lead = lead_items(s, v)
+                if lead is not None and lead < len(ev) and ev[lead][1] in ('ARRAY', 'MAP') and isinstance(ev[lead][2], Int) and ev[lead][2].is_const():
+                    f = mand[-1]
+                    # locate the field's slot
+                    j = lead + 1
+                    slot = None
+                    cnt = ev[lead][2].c
+                    for k in range(cnt):
+                        start = j
+                        if ev[lead][1] == 'MAP':
+                            idxv = ev[j][3] if ev[j][1] == 'INT' else None
+                            j2, _ = parse_tree(ev, j)
+                            j3, _ = parse_tree(ev, j2)
+                            if isinstance(idxv, Int) and idxv.is_const() and idxv.c == f['idx']:
+                                slot = (start, j3)
+                            j = j3
+                        else:
+                            j2, _ = parse_tree(ev, j)
+                            if k == f['idx']:
+                                slot = (start, j2)
+                            j = j2
+                    if slot:
+                        if ev[lead][1] == 'MAP':
+                            st2 = ev[:lead] + [('ITEM', 'MAP', Int.const(cnt - 1))] + ev[lead + 1:slot[0]] + ev[slot[1]:]
+                        else:
+                            st2 = ev[:lead] + [('ITEM', 'ARRAY', Int.const(f['idx']))] + ev[lead + 1:slot[0]] + ev[j:]
+                        n += 1
+                        rej, classes = all_rejected(prog, s, st2, o.st)
+                        key = '%s|%s|missing:%s' % (label, vk, f['name'])
+                        if rej and 'MissingValue' in classes:
+                            ctx.ok('S-ERR.missing', key)
+                        else:
+                            ctx.violation('S-ERR.missing', key, 'mandatory field %s (index %d) is absent from the input but decoding yields %s' % (f['name'], f['idx'], 'a value' if not rej else classes), where)
+    ctx.count('S-ERR.cases', n)
+    return n
+
+
+# ---------------------------------------------------------------------------
+# C10: reader version over writer version
+
+def by_name(d):
+    return dict((s['name'], s) for s in d['schemas'])
+
+
+def c10(ctx, prog=None):
+    d = corpus()
+    prog = prog or load.program('schemas')
+    names = by_name(d)
+    n = 0
+    pairs_done = 0
+    for p in d['pairs']:
+        neg = p['relation'].startswith('NOT compatible')
+        a, b = names[p['old']], names[p['new']]
+        fired = False
+        for w, r_ in ((a, b), (b, a)):
+            res = summaries.summary(prog, enc_path(w), 'enc', ())
+            if res is None or res[0] == 'abort':
+                ctx.fail_closed('S-COMPAT', 'writer %s not summarised: %s' % (w['name'], res[1] if res else 'missing'))
+                continue
+            inst, outs, m = res
+            where = 'writer %s -> reader %s (%s)' % (w['name'], r_['name'], p['relation'])
+            for o in outs:
+                if o.kind != 'return' or l1.result_kind(o.value) != 'Ok':
+                    continue
+                wv = variant_of(w, o.st)
+                wfields = wv['fields'] if wv is not None else w['fields']
+                pres = presence_of(o.st, wfields, ())
+                for k_ in list(pres):
+                    if pres[k_] is None:
+                        pres[k_] = True
+                # reader expectation
+                if r_['kind'] == 'enum':
+                    rv = [x for x in r_['variants'] if x['idx'] == wv['idx']]
+                    if not rv:
+                        continue   # a top-level unknown variant is an error by definition (C09)
+                    rv = rv[0]
+                    rfields = rv['fields']
+                else:
+                    rv = None
+                    rfields = r_['fields']
+                widx = dict((f['idx'], f) for f in wfields if not f['skip'])
+                exp = {}
+                if rv is not None:
+                    exp['__variant__'] = rv['name']
+                ch = summaries.choices(o.st)
+                for g in rfields:
+                    gk = field_key(g, None)
+                    if g['skip']:
+                        continue
+                    f = widx.get(g['idx'])
+                    if f is None or not pres.get(f['name'], True):
+                        exp[gk] = ('none',)
+                        continue
+                    fk = field_key(f, None)
+                    # enum-typed optional field whose written variant the reader does not know -> None
+                    inner = re.match(r'Option<(\w+)>', f['ty'])
+                    if inner and inner.group(1) in names and names[inner.group(1)]['kind'] == 'enum':
+                        wen = names[inner.group(1)]
+                        ginner = re.match(r'Option<(\w+)>', g['ty'])
+                        ren = names.get(ginner.group(1)) if ginner else None
+                        wvar = ch.get('self*.%s.0' % fk)
+                        if ren is not None and wvar is not None:
+                            widx_ = [x['idx'] for x in wen['variants'] if x['name'] == wvar]
+                            if widx_ and widx_[0] not in [x['idx'] for x in ren['variants']]:
+                                exp[gk] = ('none',)
+                                continue
+                            if widx_:
+                                rvn = [x['name'] for x in ren['variants'] if x['idx'] == widx_[0]][0]
+                                exp[gk] = ('variant', rvn)
+                                continue
+                    exp[gk] = ('origin', fk, None)
+                key = '%s->%s|%s|%s' % (w['name'], r_['name'], wv['name'] if wv else '-', ','.join('%s=%s' % kv for kv in sorted(ch.items())))
+                n += 1
+                if neg:
+                    # negative control: must be reported by the rule
+                    c2 = type(ctx)(ctx.pid, ctx.tier, ctx.seed)
+                    check_decode_over(c2, 'S-COMPAT', key, prog, r_, dec_path(r_), o.st.events, exp, where, leaf=(), from_state=o.st)
+                    if c2.violations:
+                        fired = True
+                    continue
+                if check_decode_over(ctx, 'S-COMPAT', key, prog, r_, dec_path(r_), o.st.events, exp, where, leaf=(), from_state=o.st):
+                    ctx.ok('S-COMPAT', key)
+        if neg:
+            if fired:
+                ctx.ok('S-COMPAT.control', p['old'] + '/' + p['new'], nontrivial=False)
+            else:
+                ctx.fail_closed('S-COMPAT.control', 'the incompatible control pair %s/%s is not reported: the rule is blind' % (p['old'], p['new']))
+        pairs_done += 1
+    ctx.count('S-COMPAT.cases', n)
+    ctx.floor('S-COMPAT', 'version pairs', pairs_done, 10)
     return n
